@@ -560,6 +560,29 @@ struct Gen {
       DyndepFile dd;
       dd.path = "ddc";
       dd.producer = -1;
+      // variant: the cycle is closed by an implicit OUTPUT the dyndep file declares - b (which
+      // depends on a) is said to produce a file that a reads
+      Stmt& bb = sc.stmts[pr.second];
+      std::string a_src;
+      for (auto* w : {&a.ins, &a.imp_ins}) for (auto& p : *w) if (a_src.empty() && sc.IsSource(p) && !sc.FindDyndep(p) && p != "gen.src") a_src = p;
+      if (!a_src.empty() && bb.dyndep.empty() && !bb.phony && Hash64(back, (uint64_t)a.id * 5 + bb.id) % 3 == 0) {
+        if (kind == 2) {
+          std::vector<int> prods;
+          for (const Stmt& q : sc.stmts) if (!q.phony && !q.regen && q.id < a.id && q.deps_kind < 2) prods.push_back(q.id);
+          if (prods.empty()) kind = 1; else { dd.producer = prods[C((uint32_t)prods.size())]; AddDyndepOutput(sc.stmts[dd.producer], dd.path); }
+        }
+        bb.dyndep = dd.path;
+        if (C(2)) bb.imp_ins.push_back(dd.path); else bb.oo_ins.push_back(dd.path);
+        DyndepEntry e;
+        e.stmt = bb.id;
+        e.imp_outs.push_back(a_src);
+        dd.entries.push_back(e);
+        if (dd.producer < 0) sc.sources.push_back(dd.path);
+        sc.dyndeps.push_back(dd);
+        sc.cycle_kind = (int)kind;
+        sc.cycle_note = "cycle: statement " + std::to_string(bb.id) + " (which depends on statement " + std::to_string(a.id) + ") is declared by " + dd.path + " to produce '" + a_src + "', which statement " + std::to_string(a.id) + " reads";
+        return;
+      }
       if (kind == 2) {
         std::vector<int> prods;
         for (const Stmt& q : sc.stmts) if (!q.phony && !q.regen && q.id < a.id && q.deps_kind < 2) prods.push_back(q.id);
